@@ -4,7 +4,7 @@ import json, os, shutil, subprocess, sys
 pid = sys.argv[1]; extra = sys.argv[2:] 
 HERE = os.path.dirname(os.path.abspath(__file__))
 prop = {json.loads(l)["id"]: json.loads(l) for l in open(os.path.join(HERE, "properties.jsonl"))}[pid]
-for k in (1, 2, 3, 4, 5, 6):
+for k in [int(x) for x in os.environ.get("SEED_KS", "1,2,3,4,5,6").split(",")]:
     src = f"/tmp/seed-out/{pid}"
     if not os.path.exists(f"{src}/change{k}.diff"):
         continue
